@@ -160,13 +160,21 @@ def workdir(prop):
     if not os.environ.get("VERIF_KEEP_WORK"): atexit.register(lambda: shutil.rmtree(d, ignore_errors=True))
     return d
 
+TERMINATE = '{"e":"terminate"}'
+
 def record(bins, plan_path, wd, seed, timeout=900):
     """run each recorder binary on the plan; returns list of (key, [event lines])"""
     def one(k):
         outp = os.path.join(wd, "trace_%s.ndjson" % k)
         r = sh(["timeout", str(timeout), bins[k], plan_path, outp, str(seed)])
         lines = open(outp).read().splitlines() if os.path.exists(outp) else []
-        return k, r.returncode, r.stdout, lines
+        rc = r.returncode
+        if any(TERMINATE in l for l in lines):
+            # std::terminate inside the recorder (uncaught exception / failed assertion inside manif): the handler appends the marker
+            # to whatever was being written and exits 0; report it as an abort and keep only the complete events before it
+            rc = rc or 134
+            lines = [l for l in lines if TERMINATE not in l and l.endswith("}")]
+        return k, rc, r.stdout, lines
     res = []
     with cf.ThreadPoolExecutor(NCPU) as ex:
         for k, rc, so, lines in ex.map(one, sorted(bins)):
